@@ -24,9 +24,9 @@ Print Assumptions C18_move_conserves.
 
 (* applyTransaction = takeFee (fee to the fee sink) + Rekey + Payment (with close) or Keyreg
    (a status switch to NotParticipating never drops pending rewards: takeFee has settled them) *)
-Theorem C18_txn_conserves : forall E U tx c c' ad,
+Theorem C18_txn_conserves : forall E U tx ctr c c' ad,
   env_ok E -> NoDup U -> tx_ok E U tx -> wf_cow (e_lvl E) c ->
-  apply_transaction E tx c = (c', Ok ad) ->
+  apply_transaction E tx ctr c = (c', Ok ad) ->
   tot_at (e_P E) (e_lvl E) U c' = tot_at (e_P E) (e_lvl E) U c /\ wf_cow (e_lvl E) c'.
 Proof. exact txn_conserves. Qed.
 Print Assumptions C18_txn_conserves.
